@@ -1,7 +1,8 @@
 import sys; sys.path.insert(0, '/verif/harness')
 import mkprops as m
 P = 'Proofs/Auction.v'
-IMP = 'From BE Require Import Model.Auction Spec.Laws Proofs.Auction.\nLocal Open Scope nat_scope.'
+IMP = 'From BE Require Import Model.Auction Spec.Laws Gen.AuctionFns Proofs.Auction Proofs.AuctionGen Proofs.AuctionGenCor.\nLocal Open Scope nat_scope.'
+G = 'Proofs/AuctionGen.v'; GC = 'Proofs/AuctionGenCor.v'
 m.write('C01', 'Auction accepts exactly the calls the Laws of bridge allow.', IMP, '', [
  (P, 'vector_is_legal_set', 'C01_vector_is_legal_set', 'after offering ANY list of calls (legal or not) from any dealer: the advertised vector is exactly the legal set of Spec/Laws.v'),
  (P, 'accept_iff_legal', 'C01_accept_iff_legal', None),
@@ -11,6 +12,11 @@ m.write('C01', 'Auction accepts exactly the calls the Laws of bridge allow.', IM
  (P, 'avail_length', 'C01_vector_has_38_slots', None),
  (P, 'redouble_is_of_own_sides_bid', 'C01_redouble_is_of_own_sides_bid', 'Law 19 consequence: a legal redouble is of a double of one\'s own side\'s bid'),
  (P, 'ex_refusals', 'C01_example_refusals', 'non-vacuity'),
+ (G, 'g_take_bid_eq', 'C01_generated_model_is_hand_model', 'take_bid REGENERATED from the text of bidding_phase.py on every run (harness/gen_auction.py) equals the hand model, for all states and calls'),
+ (G, 'g_init_eq', 'C01_generated_init_is_hand_model', None),
+ (GC, 'g_vector_is_legal_set', 'C01_vector_is_legal_set_generated', 'the property, for the regenerated functions'),
+ (GC, 'g_accept_iff_legal', 'C01_accept_iff_legal_generated', None),
+ (GC, 'g_rejected_is_noop', 'C01_rejected_is_noop_generated', None),
 ])
 m.write('C02', 'Auction proceeds clockwise from the dealer and ends exactly when it must.', IMP, '', [
  (P, 'turn', 'C02_turn', 'turn = dealer rotated by the number of accepted calls, none once ended; ended exactly when Law 22 says'),
@@ -21,10 +27,16 @@ m.write('C02', 'Auction proceeds clockwise from the dealer and ends exactly when
  (P, 'length_bound', 'C02_length_bound', None),
  (P, 'ex_longest_accepted', 'C02_example_longest_auction', 'non-vacuity: the 319-call auction is accepted call by call'),
  (P, 'ex_passed_out', 'C02_example_passed_out', None),
+ (G, 'g_take_bid_eq', 'C02_generated_model_is_hand_model', 'for the functions regenerated from bidding_phase.py on every run'),
+ (GC, 'g_turn', 'C02_turn_generated', None),
+ (GC, 'g_after_end', 'C02_after_end_generated', None),
 ])
 m.write('C03', 'Final contract is the last bid, its doubling state and its true declarer.', IMP, '', [
  (P, 'contract_at_end', 'C03_contract', 'for every finished auction the reported contract is the one Spec/Laws.v derives from the bare history'),
  (P, 'no_contract_before_end', 'C03_none_before_end', None),
  (P, 'ex_redoubled_contract', 'C03_example_redoubled', 'non-vacuity'),
  (P, 'ex_declarer_is_first_namer', 'C03_example_declarer_is_first_namer', None),
+ (G, 'g_contract_eq', 'C03_generated_contract_is_hand_model', 'contract() regenerated from bidding_phase.py on every run'),
+ (GC, 'g_contract_at_end', 'C03_contract_generated', None),
+ (GC, 'g_no_contract_before_end', 'C03_none_before_end_generated', None),
 ])
